@@ -66,6 +66,17 @@ class Gen:
                 pool.append(b"\x00" * ln)
                 pool.append(b"a" + b"\x00" * ln)
                 pool.append(b"\xff" * ln)
+        elif p == "prefixfan":
+            # ~220 keys of length 1-5 over a tiny alphabet: most keys are proper prefixes of others, so
+            # separators that differ from a pivot only by length meet in interior_node::insert and
+            # interior_split (needs > 128 keys of one layer)
+            alpha = [r.choice([0x00, 0x60]), 0x60, 0x80, 0xff][-3:] if r.random() < 0.5 else [0x00, 0x61, 0x62]
+            seen = set()
+            while len(seen) < 220:
+                ln = r.choice([1, 2, 3, 3, 4, 4, 5])
+                seen.add(bytes(r.choice(alpha) for _ in range(ln)))
+            pool = sorted(seen)
+            r.shuffle(pool)
         elif p == "long":
             for ln in (255, 256, 257, 264, 300, 1000):
                 pool.append(bytes((i * 7 + ln) & 0xff for i in range(ln)))
@@ -329,6 +340,13 @@ class Gen:
                 self.emit("delete %s" % hx(st))
                 self.live.pop(st, None)
                 self.emit("list")
+            if nsess >= 2 and r.random() < 0.4:
+                # a lower-numbered session leaves while higher ones stay open over fin(): the next
+                # init() must still hand out every slot and start from a clean table
+                self.emit("leave t0")
+                self.emit("fin")
+                self.live = {}
+                continue
             leave_all = r.random() < 0.6
             if leave_all:
                 for i in range(nsess if nsess < 8 else 6):
@@ -430,9 +448,57 @@ class Gen:
         self.emit("fin")
         return self.out
 
+    def run_isplitpoint(self):
+        """A full interior node (16 borders of 8 keys after an ascending fill) gets a 17th child from
+        a border split whose new separator and the interior node's pivot (separator 7) agree on all
+        compared bytes and differ in length only: the side of the pending (separator, child) pair
+        in interior_split then depends on the length tie-break alone."""
+        r = self.r
+        self.emit("init")
+        self.emit("enter s")
+        st = b"a"
+        self.emit("create %s" % hx(st))
+        self.storages.append(st)
+        self.live[st] = set()
+        pre = bytes(r.choice(ALPHA) for _ in range(8)) if r.random() < 0.3 else b""
+        kind = r.choice(["prefix1", "prefix1", "prefix0", "control"])
+        tail = {"prefix1": bytes([0x80]), "prefix0": bytes([0x00, 0x80]), "control": bytes([0x80])}[kind]
+        base = [bytes([0x20 + j]) + tail for j in range(128)]
+        for k in base:
+            self.put(st, pre + k, unique=False, info="none")
+        self.emit("dump %s" % hx(st))
+        head = bytes([0x60]) + tail[:-1]              # a proper prefix of the pivot  60 [00] 80
+        if kind == "control":
+            new = [bytes([0x5f, 0x80, t]) for t in range(1, 9)]
+        else:
+            new = [head] + [head + bytes([t]) for t in r.sample(range(1, 0x7f), 7)]
+        if r.random() < 0.5:
+            r.shuffle(new)
+        for k in new:
+            self.put(st, pre + k, unique=True, info="new")
+        self.emit("dump %s" % hx(st))
+        everything = [pre + k for k in base + new]
+        for k in r.sample(everything, 40) + [pre + bytes([0x60]) + tail, pre + head]:
+            self.get(st, k)
+        self.emit("scan %s - F - F 0 0 1" % hx(st))
+        for k in r.sample(everything, 12):
+            self.put(st, k, unique=True, info="none")      # must report the existing entries
+        self.iscan(st, everything)
+        for k in sorted(self.live[st], key=lambda _: r.random())[:60]:
+            self.remove(st, k)
+        self.emit("scan %s - F - F 0 0 1" % hx(st))
+        self.emit("mem %s" % hx(st))
+        self.emit("leave s")
+        self.emit("sleep 60")
+        self.emit("balance strict")
+        self.emit("fin")
+        return self.out
+
     def run(self):
         if self.profile == "cycles":
             return self.run_cycles()
+        if self.profile == "isplitpoint":
+            return self.run_isplitpoint()
         if self.profile == "splitpoint":
             return self.run_splitpoint()
         r = self.r
@@ -449,7 +515,7 @@ class Gen:
         st = self.storages[0]
         budget = self.nops
         p = self.profile
-        if p in ("fanout", "drain", "big"):
+        if p in ("fanout", "drain", "big", "prefixfan"):
             order = list(pool)
             mode = r.choice(["asc", "desc", "shuf"])
             if mode == "desc":
